@@ -131,12 +131,14 @@ LABELS = {}        # label of the real network -> the integer the model uses (or
 
 
 def L(x):
+    if LABELS and x in LABELS: return LABELS[x]
     if isinstance(x, tuple): return tuple(L(y) for y in x)
-    return LABELS.get(x, x)
+    return x
 
 
 def lab_of(case):
     """nodes may be labelled with strings whose order is that of the integers they stand for"""
+    if case.get('strlabels') == 'tuple': return lambda n: ('t', n)         # tuple labels (lattice coordinates and the like), ordered as the integers
     if case.get('strlabels'): return lambda n: f"n{n:03d}"
     return lambda n: n
 
@@ -945,6 +947,11 @@ def run_case(case):
     except Exception as ex_:
         info['exc'] = f"{type(ex_).__name__}: {ex_}"
         exp.append(f"EXC {type(ex_).__name__}")
+        if case.get('strlabels') == 'tuple':
+            # outside the model (its nodes are numbers): judged by the oracle alone
+            info['oracle'].append(('tuple-labels', f"network whose node labels are tuples: {type(ex_).__name__} {ex_} "
+                                   f"(the code tells nodes from edges by isinstance(e, tuple))"))
+            info['model_skip'] = True
         if isinstance(ex_, KeyError) and any(getattr(o, '__name__', '') == 'oracle_compose' for o in case.get('oracles', ())):
             info['oracle'].append(('compose', f"KeyError {ex_} although every parameter is supplied under the instance's decorated name or the shared name"))
     _nd.heappush = _hq.heappush; _nd.heappop = _hq.heappop
@@ -957,4 +964,5 @@ def run_case(case):
     inp.append(f"RUN {case['dyn']}")
     info['handlers'] = sorted(info['handlers']); info['rng'] = len(sr.lines); info['nspecial'] = sr.nspecial
     if st.get('ex') is not None and st['ex'].unknown: info['unknown'] = sorted(set(st['ex'].unknown))
+    if info.get('model_skip'): return [], [], info
     return inp, exp, info
